@@ -150,6 +150,91 @@ func vC20BuildMerge(t vC20T, dir string, order []string, self int) *cluster {
 	return c
 }
 
+// vC20Status: the coordinator's status message for the given members (its list is id-sorted).
+func vC20Status(members []string, coord string) *ClusterStatus {
+	cs := &ClusterStatus{ClusterID: "cid", State: ClusterStateNormal}
+	for i, id := range members {
+		n := vC20Node(id, i, len(members))
+		n.IsCoordinator = id == coord
+		cs.Nodes = append(cs.Nodes, n)
+	}
+	return cs
+}
+
+// vC20BuildSingle: a follower that starts with itself and receives ONE status naming all members.
+func vC20BuildSingle(t vC20T, dir string, sorted []string, self, coord string) *cluster {
+	c := newCluster()
+	c.Path = dir
+	c.Topology = newTopology()
+	c.holder = NewHolder()
+	c.Node = vC20Node(self, 0, len(sorted))
+	c.Coordinator = coord
+	if err := c.addNode(c.Node); err != nil {
+		t.Fatalf("addNode(self): %v", err)
+	}
+	if err := c.mergeClusterStatus(vC20Status(sorted, coord)); err != nil {
+		t.Fatalf("mergeClusterStatus: %v", err)
+	}
+	return c
+}
+
+// vC20ShrinkAll: membership history must not matter. For every non-empty set of members other than the
+// follower itself and the coordinator, ONE status message that drops the whole set (adjacent ids, first,
+// last, ...) is delivered to the follower; it must end with exactly the announced members and compute the
+// model's owners; then the full list is announced again (grow after shrink) and must be restored.
+func vC20ShrinkAll(t vC20T, c *cluster, sorted []string, coord string, pairs []vC20Pair, how string) int {
+	self := c.Node.ID
+	var others []string
+	for _, id := range sorted {
+		if id != self && id != coord {
+			others = append(others, id)
+		}
+	}
+	cases := 0
+	for mask := 1; mask < 1<<uint(len(others)); mask++ {
+		drop := map[string]bool{}
+		var dropped []string
+		for i, id := range others {
+			if mask&(1<<uint(i)) != 0 {
+				drop[id] = true
+				dropped = append(dropped, id)
+			}
+		}
+		var remaining []string
+		adjacent := false
+		for i, id := range sorted {
+			if !drop[id] {
+				remaining = append(remaining, id)
+			} else if i+1 < len(sorted) && drop[sorted[i+1]] {
+				adjacent = true
+			}
+		}
+		if err := c.mergeClusterStatus(vC20Status(remaining, coord)); err != nil {
+			t.Fatalf("%s: mergeClusterStatus(shrink): %v", how, err)
+		}
+		if got := vC20IDs(c.nodes); !vC20Eq(got, remaining) {
+			t.Fatalf("%s: members %v, one status drops %v: follower %s now lists %v, the coordinator announced %v", how, sorted, dropped, self, got, remaining)
+		}
+		for _, r := range []int{1, 2, 3} {
+			vC20CheckPartitions(t, c, remaining, r, how+" after a status dropping "+strings.Join(dropped, ","))
+		}
+		vC20CheckHelpers(t, c, remaining, 2, pairs[:24], how+" helpers after a status dropping "+strings.Join(dropped, ","))
+		if err := c.mergeClusterStatus(vC20Status(sorted, coord)); err != nil {
+			t.Fatalf("%s: mergeClusterStatus(grow): %v", how, err)
+		}
+		if got := vC20IDs(c.nodes); !vC20Eq(got, sorted) {
+			t.Fatalf("%s: after re-announcing all members follower %s lists %v, want %v", how, self, got, sorted)
+		}
+		k := vkit.NewCase().Key("shrink", how, sorted, self, coord, dropped)
+		k.Class("status-drops=%d", len(dropped)).ClassIf(adjacent, "status-drops-adjacent-ids")
+		k.NT(len(dropped) >= 2)
+		k.Sample(map[string]interface{}{"members": sorted, "follower": self, "coordinator": coord, "one_status_drops": dropped})
+		k.Done()
+		cases++
+	}
+	return cases
+}
+
 func vC20NextPerm(p []int) bool {
 	i := len(p) - 2
 	for i >= 0 && p[i] >= p[i+1] {
@@ -422,6 +507,15 @@ func TestVerifC20_Enum(t *testing.T) {
 						}
 						vC20CheckHelpers(t, c3, sorted, 2, pairs[:64], "helpers/merge "+strings.Join(order, ","))
 						vkit.Count("route:mergeClusterStatus", 1)
+						if n >= 3 {
+							coord := order[0]
+							if self == 0 {
+								coord = order[1]
+							}
+							vC20ShrinkAll(t, c3, sorted, coord, pairs, "follower built by successive statuses "+strings.Join(order, ","))
+							c4 := vC20BuildSingle(t, dir, sorted, order[self], coord)
+							vC20ShrinkAll(t, c4, sorted, coord, pairs, "follower built by one status")
+						}
 					}
 				}
 			}
@@ -436,8 +530,16 @@ func TestVerifC20_Enum(t *testing.T) {
 }
 
 // TestVerifC20_Random: ids drawn from generators (not the fixed alphabet), random join order and self.
+var vC20RandomDir string
+
 func TestVerifC20_Random(t *testing.T) {
 	defer vkit.Flush()
+	d, err := ioutil.TempDir("", "verif-c20-")
+	if err != nil {
+		t.Fatal(err)
+	}
+	defer os.RemoveAll(d)
+	vC20RandomDir = d
 	pairs := vC20CoveringPairs()
 	rapid.Check(t, func(t *rapid.T) {
 		n := rapid.IntRange(1, 8).Draw(t, "n")
@@ -461,5 +563,13 @@ func TestVerifC20_Random(t *testing.T) {
 		vC20CheckPartitions(t, c, sorted, r, "random "+strings.Join(order, ","))
 		off := rapid.IntRange(0, len(pairs)-40).Draw(t, "pairs")
 		vC20CheckHelpers(t, c, sorted, r, pairs[off:off+40], "random helpers "+strings.Join(order, ","))
+		if n >= 3 {
+			coordIdx := rapid.IntRange(0, n-2).Draw(t, "coordinator")
+			if coordIdx >= self {
+				coordIdx++
+			}
+			f := vC20BuildSingle(t, vC20RandomDir, sorted, order[self], order[coordIdx])
+			vC20ShrinkAll(t, f, sorted, order[coordIdx], pairs, "random follower")
+		}
 	})
 }
